@@ -12,7 +12,7 @@ from . import ber
 from .ber import Node
 
 MENU = [
-    "len+1", "len-1", "len=0", "len-indefinite", "len-84-ffffffff", "len-126-octets", "len-81-form", "len-84-form",
+    "len+1", "len-1", "len=0", "len-indefinite", "len-84-ffffffff", "len-126-octets", "len-81-form", "len-84-form", "len-85-form", "len-88-form",
     "class+1", "class-1", "tag=31", "tag=31-dangling", "pc-flip", "empty", "truncate-1", "delete", "duplicate", "append-junk",
     "stub-1", "stub-2",
 ]  # fmt: skip
@@ -55,6 +55,10 @@ def apply(tree: Node, idx: int, label: str) -> t.Optional[bytes]:
         n.lenform = "81"
     elif label == "len-84-form":
         n.lenform = "84"
+    elif label == "len-85-form":
+        n.lenform = "85"
+    elif label == "len-88-form":
+        n.rawlen = b"\x88" + body_len.to_bytes(8, "big")
     elif label == "class+1":
         n.cls = (n.cls + 1) % 4
     elif label == "class-1":
